@@ -8,6 +8,14 @@ CLAIMED = {
    text='Kernel-checked theorems over the complete finite domain: the Coq model of score.py (constants regenerated from the source on every run) equals the Law 77 formulas on all 35x4x4x4x14 + passed-out points, and equals the running implementation on every one of those points (graph regenerated on every run and compared by vm_compute inside a theorem). Nothing is sampled.',
    design='4/C07', technique='Coq proof by complete-domain evaluation (vm_compute + forallb_forall); translator for constants; complete-domain graph tie',
    note='Trusted: Coq kernel + vm_compute; harness/gen.py reads score.py constants; drivers/score_graph.py prints what the implementation returned; Spec/Duplicate.v is the statement of Law 77. Print Assumptions: closed under the global context for all five theorems.'),
+ 'C15': dict(
+   text='Kernel-checked over the complete finite domains (52 cards, all 2 704 card pairs x 5 comparison operators, 38 calls, 4 seats, 4 vulnerabilities in every spelling, 5 suits, 2 pairs, 35 bids x 4 flag pairs x 4 vul x 5 declarer options + passed out): (i) the tables of what the implementation\'s converters return, regenerated on every run, satisfy the round-trip / injectivity / order checker of Spec/Notation.v (theorem by vm_compute on the tables), (ii) the structural models of Model/Basics.v equal those tables, (iii) round-trip, injectivity and order theorems for the models by case analysis. Nothing is sampled.',
+   design='4/C15', technique='Coq proof by complete-domain evaluation and case analysis; complete-domain graph tie; enum translators',
+   note='Trusted: Coq kernel + vm_compute; drivers/notation_graph.py prints what each converter returned; Spec/Notation.v states the property on tables. Print Assumptions: closed under the global context.'),
+ 'C16': dict(
+   text='Theorems for every integer d (unbounded Z, by induction over the sorted threshold list): the model of point_difference_to_imps equals the official IMP scale, lies in [-24,24], is monotone and odd, is 0 below 20 and 24 from 4000, and score_to_imp a b is the scale at a+b. The threshold tuple is regenerated from score.py on every run and proved equal to the official scale; the model is tied to the code by a differential run (window around 0, every threshold +-1/9/10/11, magnitudes to 1e30) whose comparison is evaluated in Coq.',
+   design='4/C16', technique='Coq proof by induction (all integers); translator for the threshold tuple; differential correspondence evaluated by vm_compute',
+   note='Trusted: Coq kernel + vm_compute; translator for _IMPS_LIST; drivers/imps.py; Spec/Duplicate.v official_imp_bounds is the statement of the official scale. The while-loop is modelled by a 24-fuel scan (the loop bound in the code). Print Assumptions: closed under the global context.'),
 }
 
 def main():
